@@ -1,4 +1,56 @@
-From HP Require Import Base.Prelude Cache.Cache.
-Example C10_smoke : chunked 2 [1;2;3]%N = [[1;2]%N; [3]%N].
-Proof. vm_compute. reflexivity. Qed.
-Print Assumptions C10_smoke.
+(* C10 -- The read-only cache is transparent: what it serves is what the source holds.
+   Model: Cache/Cache.v ([copen] = ReadOnlyFS.Open at the level of whole-file contents; the copy
+   runs in chunks of any size c > 0; [retain] is an arbitrary RetainData policy).  Handle-level
+   behaviour (Read/Seek/paged ReadDir/Stat on what Open returns) is compared against the source on
+   the real code by the harness; the theorems cover which BYTES an Open can ever hand out and
+   when the source is consulted. *)
+From HP Require Import Base.Prelude Cache.Cache Cache.CacheProofs.
+Open Scope nat_scope.
+
+(* Every state reachable by any sequence of opens (with or without faults) satisfies the invariant:
+   whatever the cache holds and has not marked incomplete IS the complete source file. *)
+Theorem C10_cache_holds_only_complete_copies : forall src retain c can_remove ops,
+  0 < c -> cinv src (fst (cruns src retain c can_remove cinit ops)).
+Proof. intros src retain c can_remove ops Hc. apply cruns_inv; [exact Hc|apply cinv_init]. Qed.
+Print Assumptions C10_cache_holds_only_complete_copies.
+
+(* Transparency: in any reachable state, an Open that succeeds on a file serves exactly the source's
+   bytes, for every policy, chunk size and store kind. *)
+Theorem C10_open_serves_the_source_bytes : forall src retain c can_remove ops ft part n d,
+  0 < c ->
+  snd (copen src retain c can_remove ft part (fst (cruns src retain c can_remove cinit ops)) n) = Served d ->
+  slookup src n = Some (SFile d).
+Proof.
+  intros src retain c can_remove ops ft part n d Hc.
+  apply copen_serves_source; [exact Hc|]. apply cruns_inv; [exact Hc|apply cinv_init].
+Qed.
+Print Assumptions C10_open_serves_the_source_bytes.
+
+(* Once a retained file has been opened successfully it is settled ... *)
+Theorem C10_successful_open_settles : forall src retain c can_remove st n d,
+  0 < c -> retain n = true ->
+  snd (copen src retain c can_remove FNone 0 st n) = Served d ->
+  settled (fst (copen src retain c can_remove FNone 0 st n)) n.
+Proof. exact open_settles. Qed.
+Print Assumptions C10_successful_open_settles.
+
+(* ... later opens of it do not touch the source at all (the access log is unchanged) ... *)
+Theorem C10_no_reread : forall src retain c can_remove ft part st n data,
+  slookup src n = Some (SFile data) -> settled st n ->
+  cs_log (fst (copen src retain c can_remove ft part st n)) = cs_log st
+  /\ settled (fst (copen src retain c can_remove ft part st n)) n.
+Proof. exact settled_no_source_access. Qed.
+Print Assumptions C10_no_reread.
+
+(* ... and opening anything else, successfully or not, does not unsettle it. *)
+Theorem C10_settled_is_stable : forall src retain c can_remove ft part st n m,
+  str_eqb n m = false -> settled st m -> settled (fst (copen src retain c can_remove ft part st n)) m.
+Proof. exact settled_stable. Qed.
+Print Assumptions C10_settled_is_stable.
+
+Example C10_nonvacuous :
+  let src := [(S "f", SFile [1;2;3;4;5]%N); (S "d", SDir)] in
+  let '(st, rs) := cruns src (fun _ => true) 2 true cinit [(S "f", FNone, 0); (S "d", FNone, 0); (S "f", FNone, 0)] in
+  rs = [Served [1;2;3;4;5]%N; DirHandle; Served [1;2;3;4;5]%N] /\ count_opens (S "f") (cs_log st) = 2.
+Proof. vm_compute. auto. Qed.
+Print Assumptions C10_nonvacuous.
